@@ -3,7 +3,7 @@
    (what the code does) and C08/Spec.v (what a valid file is; wf_state). *)
 From Coq Require Import List NArith ZArith Bool String Ascii Permutation Reals.
 From T4V Require Import Base.Str C08.Model C08.Spec C08.ProofsSets C08.ProofsWrite C08.ProofsPrune
-     C08.ProofsTail C08.SurfEq C08.Parse C08.ProofsChars C08.ProofsParse C08.ProofsGiven C08.ProofsEnd C08.CheckText C08.Check C08.ProofsRefute C08.LinkC01a C08.LinkC01b C08.LinkC01c C08.LinkC01 C08.ProofsHelpers C08.LinkC09 C08.LinkFull.
+     C08.ProofsTail C08.SurfEq C08.Parse C08.ProofsChars C08.ProofsParse C08.ProofsGiven C08.ProofsEnd C08.CheckText C08.Check C08.ProofsRefute C08.LinkC01a C08.LinkC01b C08.LinkC01c C08.LinkC01 C08.ProofsHelpers C08.LinkC09 C08.LinkFull C08.ProofsEmptyTable.
 Import ListNotations.
 
 (* VolumeT4.__str__: for EVERY volume (no hypothesis), each declared count equals the
@@ -338,6 +338,32 @@ Theorem C08_convert_wf_all_linked :
                  Forall finite (state_numbers w) -> Forall finite (file_numbers f)).
 Proof. exact convert_wf_all_linked. Qed.
 Print Assumptions C08_convert_wf_all_linked.
+
+(* round 5: the hypothesis "the volume table is not empty" removed.  With an empty table
+   (every cell of the deck is empty) the tail raises ValueError before the file is opened
+   (de-duplication on) or leaves the // header only; so the all-linked statement holds with
+   one more disjunct and one assumption less (stage0_rest5: skipped cells, material side,
+   densities from C09's normalize_float, strings are words) *)
+Theorem C08_convert_wf_all_linked_total :
+  forall (A : Type) (dic : list (Z * list (A * Z))) num mat
+         (surfs0 : stable (spayload R)) fuel cells u0 u1 todo cnt0 s' skip_dedup (w : wstate (spayload R)),
+  M2.number_items dic = M2.Ok (num, mat) ->
+  (forall k, In k (P2.keys dic) -> (0 < k)%Z) -> NoDup (P2.keys dic) ->
+  Forall (fun kv => P2.unit_sides (snd kv)) dic ->
+  keys surfs0 = map fst num -> (exists k, In k (keys surfs0) /\ (0 < k)%Z) ->
+  insert_helpers surfs0 (helper_plane "1" 1%R) (helper_plane "-1" (-1)%R) = Ok (w_surfs w, u0, u1) ->
+  M1.convert_cells fuel cells mat u0 u1 todo (M1.mkSt cnt0 [] [] []) = M1.Ok s' ->
+  w_vols w = tr_table (M1.vols s') ->
+  stage0_rest5 cnt0 todo w ->
+  convert_tail Req_payload skip_dedup u0 u1 w = Err EValue \/
+  exists o, convert_tail Req_payload skip_dedup u0 u1 w = Ok o /\
+    (o = Died false [] EValue \/
+     exists f, (o = Complete f \/ exists e, o = Raised f e) /\
+               wf_file f /\ parse_t4 (print_t4 f) = Some f /\
+               forall finite : string -> Prop,
+                 Forall finite (state_numbers w) -> Forall finite (file_numbers f)).
+Proof. exact convert_wf_all_linked_total. Qed.
+Print Assumptions C08_convert_wf_all_linked_total.
 
 (* ---- open defects: a composition that is named but not written.  The hypothesis cell_named
    (s0_cells / ws_cells) of the theorems above cannot be dropped: with closed tables, a cell
